@@ -288,6 +288,11 @@ fn assigned_vars(stmts: &[Stmt], out: &mut Vec<String>) {
                     self.out.push(n);
                 }
             }
+            if let Some((n, _, _)) = indexed_target(&a.left) {
+                if !self.declared.contains(&n) && !self.out.contains(&n) {
+                    self.out.push(n);
+                }
+            }
             self.visit_expr(&a.right);
         }
         fn visit_expr_binary(&mut self, b: &'ast ExprBinary) {
@@ -974,6 +979,14 @@ impl<'a> Tr<'a> {
                     Expr::Continue(_) => self.loop_jump(false),
                     Expr::Loop(l) => self.loop_fuel(&l.body, None, rest, k),
                     Expr::While(w) => self.loop_fuel(&w.body, Some(&w.cond), rest, k),
+                    Expr::Assign(a) if indexed_target(&a.left).is_some() && indexed_target(&a.left).unwrap().2.is_none() => {
+                        // `v[i] = e` on a local list
+                        let (base, idx_e, _) = indexed_target(&a.left).unwrap();
+                        let base = ident(&base);
+                        let idx = self.expr(idx_e)?;
+                        let v = self.expr(&a.right)?;
+                        Ok(format!("let {} := (List.set {} {} {})\n{}", base, base, idx, v, self.stmts(rest, k)?))
+                    }
                     Expr::Assign(a) => {
                         let n = self.assign_name(&a.left)?;
                         let v = self.expr(&a.right)?;
